@@ -558,6 +558,30 @@ cmd_nbest(const char *tag, int max, int with_after)
                         (int)bwd, (int)maxp);
             }
             emit_lattice_fields(dag, decoder_lattice(d), 1);
+            {
+                /* a walk over the edges with the public traversal calls, abandoned half-way (a search loop that found
+                 * what it looked for), then the posteriors once more */
+                float32 ascale = (float32)(1.0 / config_float(d->config, "ascale"));
+                latlink_t *lk = lattice_traverse_edges(dag, NULL, NULL);
+                int32 post, bwd = logmath_get_zero(dag->lmath), maxp = -2000000000, steps = 0, stop = 1 + (scored[1] % 5);
+                latlink_iter_t *li;
+                latnode_iter_t *ni;
+                while (lk && ++steps < stop)
+                    lk = lattice_traverse_next(dag, NULL);
+                post = lattice_posterior(dag, ascale);
+                for (li = ps_latnode_exits(dag->start); li; li = ps_latlink_iter_next(li)) {
+                    latlink_t *l2 = ps_latlink_iter_link(li);
+                    bwd = logmath_add(dag->lmath, bwd, l2->beta + (int32)((l2->ascr << 10) * ascale));
+                }
+                for (ni = ps_latnode_iter(dag); ni; ni = ps_latnode_iter_next(ni))
+                    for (li = ps_latnode_exits(ps_latnode_iter_node(ni)); li; li = ps_latlink_iter_next(li)) {
+                        int32 pp = ps_latlink_prob(dag, ps_latlink_iter_link(li), NULL);
+                        if (pp > maxp)
+                            maxp = pp;
+                    }
+                fprintf(vt_out, ",\"postwalk\":{\"best\":%d,\"norm\":%d,\"bwd\":%d,\"maxlink\":%d,\"steps\":%d}", (int)post, (int)dag->norm,
+                        (int)bwd, (int)maxp, (int)steps);
+            }
         }
         fprintf(vt_out, "}");
     }
